@@ -159,6 +159,22 @@ Theorem C02_ws_block_no_space :
 Proof. intros. apply ws_block_no_space; try exact (or_introl eq_refl); assumption. Qed.
 Print Assumptions C02_ws_block_no_space.
 
+(* the two theorems above are decided per element NAME: whatever the name, the fragment node of an accepted element carries exactly the
+   classification of the specification's tables (spec/Denote.v block_name / void_name) - block decides `inline`, void decides the closing
+   tag.  The harness compares these tables with the live parser's IsBlockElement / IsVoidElement for every name of its vocabulary. *)
+From V Require Import proofs.IrFragVocabProof.
+Theorem C02_element_tables_agree :
+  forall (call_ok : bytes -> bool) (fuel : nat) (name : bytes) (attrs : list attr) (ch : list node) (t : trailing) (n : nd),
+    to_frag call_ok fuel (NElem name attrs ch t) = Some n ->
+    exists a c, n = Elem name (Denote.block_name name) (Denote.void_name name) a c t.
+Proof. exact element_class_by_spec_tables. Qed.
+Print Assumptions C02_element_tables_agree.
+(* not vacuous: blockquote is a block name, br a block and void name, span neither *)
+Example C02_ex_element_classes :
+  (Denote.block_name (bs "blockquote"), Denote.void_name (bs "blockquote"), Denote.block_name (bs "br"), Denote.void_name (bs "br"), Denote.block_name (bs "span"), Denote.void_name (bs "span"))
+  = (true, false, true, true, false, false).
+Proof. vm_compute. reflexivity. Qed.
+
 (* a string expression that returns an error stops the rendering with templ.Error{Line: to.line + 1, Col: to.col} and writes nothing *)
 Theorem C02_error_position :
   forall (E : Type) (orc : oracles E) (tbl : list (bytes * list nd)) (fuel : nat) (env : E) (kids : option (dblock E)) (tc : bool) (xk : option (xblock E)) (e : expr) (t : trailing) (next : option nd),
